@@ -4,7 +4,9 @@ MODULES = [
     "c01_compound",
     "c02_single",
     "c02_compound",
+    "bounded_location",
     "c04_liftover",
+    "c05_cds",
     "c13_variants",
     "c14_bed",
     "c15_tables",
